@@ -390,7 +390,44 @@ def r10_monotone_column(c, facts, rule='C16.R10'):
         c.bad(R, 'position_to_utf8:column-test-not-found', 'position_to_utf8: cannot find the comparison of the column counter with position.character')
 
 
+def r11_doc_key(c, facts, rule='C16.R11'):
+    """the client names a document by a URI and every position it sends refers to *that* document: the server keys its
+    copy by the URI as sent - a normalised key (scheme dropped, query or fragment removed) folds two client documents into
+    one server text"""
+    R = c.rule(rule, 'DOC-KEY: the locator of a client document is Locator::from(the uri sent), nothing in between')
+    n = 0
+    fns = ['oal_client::lsp::Workspace::open', 'oal_client::lsp::Workspace::close', 'oal_client::lsp::Workspace::change',
+           'oal_client::lsp::handlers::go_to_definition', 'oal_client::lsp::handlers::references',
+           'oal_client::lsp::handlers::prepare_rename', 'oal_client::lsp::handlers::rename']
+    for q in fns:
+        fn = c.anchor(R, q)
+        idx = MF.defs_index(fn)
+        made = []
+        for b, t in fn.calls():
+            info = callee_of(t)
+            if not info or 'Locator' not in (t['dest'].get('ty') or ''):
+                continue
+            d = P.strip(info['def'])
+            if d.endswith('From::from') or d.endswith('Into::into') or d.endswith('Locator::from'):
+                a = t['args'][0] if t['args'] else None
+                if a is None or 'Url' not in (a.get('ty') or ''):
+                    continue
+                sl = MF.slice_back(fn, a['l'], idx) if 'l' in a else {'calls': []}
+                via = sorted({P.strip(x).split('::')[-1] for x, _, _ in sl['calls']} - {'clone', 'deref', 'as_ref', 'borrow'})
+                made.append(via)
+        if not made:
+            c.bad(R, '%s:document-locator-not-from-uri' % q.split('::')[-1], '%s no longer makes the locator of the document with Locator::from(uri)' % q)
+            continue
+        n += 1
+        if any(made_via for made_via in made):
+            c.bad(R, '%s:document-uri-transformed' % q.split('::')[-1], '%s transforms the URI the client sent (%s) before it becomes the key of the document: two client documents can share one server text, and positions of one are applied to the other' % (q, sorted({x for v in made for x in v})))
+        else:
+            c.ok(R, {'fn': q, 'key': 'Locator::from(uri as sent)'})
+    c.floor(R, 'functions that key a client document', n, 7)
+
+
 def run(c, facts):
+    c.run(r11_doc_key, facts)
     c.run(r10_monotone_column, facts)
     c.run(r8_encoding, facts)
     c.run(r9_location_pair, facts)
